@@ -6,6 +6,8 @@ HK = os.path.join(vlib.ROOT, 'harness/kernel/kfmt')
 HH = os.path.join(vlib.ROOT, 'harness/kernel/hal')
 HD = os.path.join(vlib.ROOT, 'harness/kernel/device')
 vlib.register_const_dump('kernel', 'kfmt', os.path.join(HK, 'zz_verif_consts_test.go'))
+# Props/C16_vt.v composes C16 with the terminal development (Tty/*.v), which needs the tty constants
+vlib.register_const_dump('kernel', 'device/tty', os.path.join(vlib.ROOT, 'harness/kernel/device/tty/zz_verif_consts_test.go'))
 
 
 def _go_string(lit):
@@ -161,13 +163,13 @@ def enc_driver(d):
 
 class C16(flow.Spec):
     prop = 'C16'
-    props_files = ['theories/Props/C16.v', 'theories/Props/C16_examples.v']
+    props_files = ['theories/Props/C16.v', 'theories/Props/C16_vt.v', 'theories/Props/C16_examples.v']
     model_targets = ['theories/Hal/Model.vo', 'theories/Kfmt/Ring.vo']
     pkg = 'hal'
     harness = [os.path.join(HH, 'zz_verif_c16_test.go')]
     test = 'TestVerifC16$'
     rule = ('scenarios = log output before (sizes 0,1,2046,2047,2048,5000 or random, random chunking, []byte / string / integer Printf), '
-            '0-8 mock drivers (any detection orders incl. ties and the four named constants, any registration permutation, probe failing '
+            '0-8 mock drivers (terminals are recording proxies in front of a real tty.VT, consoles are cell grids of 8 geometries from 1x1 to 132x50; any detection orders incl. ties and the four named constants, any registration permutation, probe failing '
             'with p=0.15, init failing with p=0.25, consoles (plain / FontSetter / LogoSetter / both) / terminals / others, 0-3 init log chunks with newlines), a multiboot command line with consoleFont = none / existing / unknown and consoleLogo = none / off / on, log output after; '
             'early logs / ring histories whose Writes (sizes 1,63,64,65,S-2,S-1,S,random) END on the residues S-2,S-1,0,1 before and after the first wrap, followed by short writes before the hand-over; plus random ring-buffer-only histories of Write/Read/drain with wrap-around. non-trivial = at least one driver initialised; '
             'distinct = distinct scenarios')
@@ -176,9 +178,9 @@ class C16(flow.Spec):
                    'io.Copy is modelled as: Read into a 32 KiB buffer and Write what was read, until Read returns io.EOF; writers accept every Write completely',
                    'drivers are mock objects whose Probe/DriverInit behaviour is data; for consoles with font/logo support the model records that SetLogo/SetFont is called (which font/logo is chosen is not modelled)',
                    'add-only shims under build tag verif, injected by overlay: device.VerifSetDrivers (resets device.registeredDrivers), kfmt.VerifResetEarlyBuffer (boot state of the early buffer), multiboot.VerifResetCmdLine (forget the memoised command line)']
-    partial = ['the second configuration of DESIGN.md section 5 (the real tty.VT attached to a reference console, cells compared, composition '
-               'with C17) is not exercised: the terminal of the harness is a recording mock, so "cells shown by a reference console" is '
-               'observed as the byte stream handed to the terminal']
+    partial = ['C16_bringup_terminal_shows (composition with C17) takes "the delivered stream consists of bytes < 256" as a hypothesis '
+               '(not derived from well-formed inputs through the formatter model) and is about the terminal model of Tty/Vt.v; that the '
+               'console then shows these cells is checked on the real tty.VT by the harness (cell monitor), not proved here (C18 covers terminal/console sync)']
 
     def overlay(self):
         # also hand the declared capacity (regenerated constant ringBufferSize - 1) to the harness
